@@ -101,6 +101,7 @@ class Driver:
         self.impl_calls = si.calls
         self.ref_calls = sr.calls
         self.impl_raised = si.raised
+        self.impl_side, self.ref_side = si, sr
         self.last = (impl, ref, r[2])
         return impl, ref
 
